@@ -1,5 +1,5 @@
 """C07: ASAP schedules equal the priority-ordered earliest-fit schedule (reference list scheduler + M-pick law).
-Random core-dialect projects plus an exhaustive small universe (full in thorough, seeded 1/8 slice in quick)."""
+Random core-dialect projects plus an exhaustive small universe (full in thorough, seeded 1/12 slice in quick)."""
 import itertools
 import random
 import signal
@@ -136,8 +136,10 @@ def universe():
                             continue  # symmetry: first task on r0
                         for cal in (0, 1, 2):
                             for shape in (0, 1):
-                                yield idx, (n, pairs, emask, efforts, prios, alloc, cal, shape, base)
-                                idx += 1
+                                for lim in (0, 1):          # r0 under 'dailymax 2h'
+                                    for pin in (0, 1):      # last task pinned to day 2, 10:00
+                                        yield idx, (n, pairs, emask, efforts, prios, alloc, cal, shape, base, lim, pin)
+                                        idx += 1
 
 
 def _acyclic(n, edges):
@@ -155,7 +157,7 @@ def _acyclic(n, edges):
 
 
 def build_universe_model(spec):
-    n, pairs, emask, efforts, prios, alloc, cal, shape, base = spec
+    n, pairs, emask, efforts, prios, alloc, cal, shape, base, lim, pin = spec
     m = dict(res=60, start=base, weeks=6, alap=False, shifts={}, groups=[], pid="u")
     rs = [dict(id="r0", eff=1.0), dict(id="r1", eff=1.0)]
     if cal == 1:
@@ -163,6 +165,8 @@ def build_universe_model(spec):
         rs[0]["shift"] = "half"
     elif cal == 2:
         rs[0]["leaves"] = [(base, None)]
+    if lim:
+        rs[0]["limits"] = {"dailymax": 2}
     m["resources"] = rs
     tasks = []
     if shape == 1:
@@ -177,6 +181,8 @@ def build_universe_model(spec):
         deps = [dict(to=paths[j]) for k, (a, j) in enumerate(pairs) if a == i and (emask >> k) & 1]
         if deps:
             t["deps"] = deps
+        if pin and i == n - 1:
+            t["start"] = base + timedelta(days=1, hours=10)
         tasks.append(t)
     m["tasks"] = tasks
     gen.assign_decl(m)
@@ -197,7 +203,7 @@ def worker(job, acc):
     for idx, spec in universe():
         if idx % W != w:
             continue
-        if tier == "quick" and (idx * 2654435761 + seed * 97) % 8 != 0:
+        if tier == "quick" and (idx * 2654435761 + seed * 97) % 12 != 0:
             continue
         if time.time() - t0 > budget * 0.5:
             exhaustive_done = False
